@@ -1181,6 +1181,8 @@ def judge(case, out, site, idx, all_sites):
         if is_len_target:
             return ('outside', 'also a length parameter')
         if name == 'allow-none' and site.kind == 'param' and eff == 'out':
+            if site.opts('not') == ['optional']:
+                return ('outside', 'contradicted by (not optional); judged there')
             return ('valid', [('optional="1"', a.get('optional') == '1')])
         if name == 'allow-none' and eff == 'inout':
             return ('outside', 'allow-none on inout')
